@@ -304,6 +304,11 @@ def gen_affine(g, rng, d, parts_list, kind, cls, expected, thorough):
         scale = rng.choice((Fraction(1), Fraction(2), Fraction(1, 2), Fraction(8)))
         g.op("K", qs(scale), ",".join(map(str, v)))
         g.op("B", qs(scale), sx(v, ps))
+    for ps in [q for q in (parts_list if len(parts_list) <= 40 else rng.sample(parts_list, 40)) if len(q[-1]) == 1]:
+        v = rand_vertex(rng, d)
+        line = "LB %s %s" % (qs(rng.choice((Fraction(1), Fraction(2), Fraction(1, 2)))), sx(v, ps))
+        g.op(line)
+        expected[(hdr, line)] = sx(v, ps)
     g.op("DIM")
 
 
@@ -320,16 +325,24 @@ def gen_coxeter(g, rng, d, parts_list, expected, thorough):
         line = "LC %s %s" % (qs(scale), " ".join(qs(c) for c in x))
         g.op(line)
         expected[(hdr, line)] = sx(v, ps)
+        v = rand_vertex(rng, d)
+        line = "LB %s %s" % (qs(rng.choice((Fraction(1), Fraction(2), Fraction(1, 2)))), sx(v, ps))
+        g.op(line)
+        expected[(hdr, line)] = sx(v, ps)
     g.op("DIM")
 
 
-def gen_freud_coords(g, rng, d, parts_list):
+def gen_freud_coords(g, rng, d, parts_list, expected):
     g.G(d, "freud")
     for ps in (parts_list if len(parts_list) <= 60 else rng.sample(parts_list, 60)):
         v = rand_vertex(rng, d, big=(rng.random() < 0.2))
         scale = rng.choice((Fraction(1), Fraction(2), Fraction(1, 4), Fraction(16)))
         g.op("K", qs(scale), ",".join(map(str, v)))
         g.op("B", qs(scale), sx(v, ps))
+        if len(ps[-1]) == 1:
+            line = "LB %s %s" % (qs(scale), sx(v, ps))
+            g.op(line)
+            expected[(g.groups[-1][0], line)] = sx(v, ps)
     g.op("DIM")
 
 
@@ -347,7 +360,7 @@ def generate(rng, tier):
         gen_perm(g, rng, d, [s for s in star if any(s[0])], None, [(0,) * d])
         gen_pairs(g, rng, d, star, None if (d <= 3 or thorough) else 20000)
         gen_locate_freud(g, rng, d, cp, thorough, expected)
-        gen_freud_coords(g, rng, d, cp)
+        gen_freud_coords(g, rng, d, cp, expected)
         for kind, cls in (("affine", "diag"), ("affine", "int"), ("affine", "dyadic"), ("chg", "int"), ("matrix", "int"), ("chg", "diag")):
             gen_affine(g, rng, d, cp, kind, cls, expected, thorough)
         gen_coxeter(g, rng, d, cp, expected, thorough)
@@ -385,7 +398,7 @@ SORT_TOKENS = ("C", "CT", "OSP")
 def canon_answer(op, ans):
     if op in SORT_TOKENS:
         return " ".join(sorted(ans.split(" ")))
-    if op in ("L", "LC"):
+    if op in ("L", "LC", "LB"):
         try:
             v, ps = parse_sx(ans)
             return sx(v, [sorted(p) for p in ps])
@@ -416,13 +429,13 @@ def compare(ctx, g, res, drv, orc, expected):
             res.evaluations += 1
             res.count("op:" + op)
             res.count("d:%s" % d)
-            if op in ("L", "LC", "K", "B", "DIM"):
+            if op in ("L", "LC", "LB", "K", "B", "DIM"):
                 res.count("triangulation:" + kind)
             model, _, spec = e.partition(" # ")
             case = {"group": h, "line": line}
             co = canon_answer(op, o)
             cm = canon_answer(op, model)
-            if op in ("L", "LC"):
+            if op in ("L", "LC", "LB"):
                 try:
                     pss = parse_sx(co)[1]
                     res.count("located-dim:%d" % (len(pss) - 1))
